@@ -195,17 +195,36 @@ func (en *Env) eval(e ast.Expr) *SV {
 				name := kv.Key.(*ast.Ident).Name
 				for j := 0; j < st.NumFields(); j++ {
 					if st.Field(j).Name() == name {
-						v = r.Set(v, j, en.coerce(en.evalT(kv.Value), r.Fields[j].Sort))
+						v = r.Set(v, j, en.coerce(en.evalAs(kv.Value, st.Field(j).Type()), r.Fields[j].Sort))
 					}
 				}
 			} else {
-				v = r.Set(v, i, en.coerce(en.evalT(el), r.Fields[i].Sort))
+				v = r.Set(v, i, en.coerce(en.evalAs(el, st.Field(i).Type()), r.Fields[i].Sort))
 			}
 		}
 		return TV(v)
 	}
 	unsupportedf("spec expression %s (%T)", exprString(e), e)
 	return nil
+}
+
+// evalAs evaluates e and converts it to the static type `to` (boxing a concrete value into an
+// interface where the Go assignment would).
+func (en *Env) evalAs(e ast.Expr, to types.Type) *Term {
+	w := en.x.w
+	v := en.eval(e)
+	t := en.x.svTerm(v)
+	if _, toIface := to.Underlying().(*types.Interface); toIface {
+		from := en.typeOf(e)
+		if b, ok := from.(*types.Basic); ok && b.Kind() == types.UntypedNil {
+			return w.Zero(to)
+		}
+		if _, fromIface := from.Underlying().(*types.Interface); !fromIface {
+			return w.iface.Make(w.TypeID(from), w.Box(from, t))
+		}
+		return t
+	}
+	return en.coerceArg(t, to)
 }
 
 func isNilIdent(e ast.Expr) bool {
@@ -857,8 +876,8 @@ func (en *Env) evalOverlayCall(fobj *types.Func, decl *ast.FuncDecl, n *ast.Call
 		if len(n.Args) < 1 || len(n.Args) > 2 {
 			unsupportedf("ghost function %s must take one or two arguments", name)
 		}
-		key := x.svTerm(en.eval(n.Args[0]))
 		sig := fobj.Type().(*types.Signature)
+		key := en.evalAs(n.Args[0], sig.Params().At(0).Type())
 		rs := w.SortOf(sig.Results().At(0).Type())
 		comp := "GH!" + fobj.Pkg().Name() + "." + name
 		if len(n.Args) == 1 {
@@ -896,7 +915,7 @@ func (en *Env) evalOverlayCall(fobj *types.Func, decl *ast.FuncDecl, n *ast.Call
 		for _, nm := range f.Names {
 			v := en.eval(n.Args[i])
 			if v.T != nil {
-				v = TV(en.coerceArg(v.T, sig.Params().At(i).Type()))
+				v = TV(en.evalAs(n.Args[i], sig.Params().At(i).Type()))
 			}
 			sub.vars[nm.Name] = v
 			i++
